@@ -49,6 +49,11 @@ def check_score(P, R, key, client_terms):
         # D z must be a product of D and z, not a sum
         dz = [a for s, a in t if any(pol._match(x, ["_D"]) for x in a)]
         R.check(bool(dz) and all(any(model_p in x or "latent_z" in x for x in a) for a in dz), "POL.client", key, "D multiplies the client's z", "", "D is not multiplied by the client's latent offset")
+        # every factor of the client mean multiplies (m + D * z + V @ y)
+        pi_ = pol.Pol(P, f, track_inv=True)
+        ti_ = list(dict.fromkeys(pi_.terms(b.get(mp), st)))
+        inv_atoms = sorted({x for s_, a in ti_ for x in a if x.startswith("1/")})
+        R.check(not inv_atoms, "POL.client-placement", key, "client mean m + D z (+ V y): every factor multiplies", "", f"{inv_atoms[:3]} divide(s) in the client mean", c.lineno)
         # ubm
         uc = cone(du, b[up], st, interproc=False) if b.get(up) is not None else None
         R.check(uc is not None and uc.has_attr("ubm") and uc.params <= {f.self_name}, "DEP.score-ubm", key, f"ubm={src(b.get(up)) if b.get(up) is not None else None}", "scored against the machine's UBM", "the probe is not scored against self.ubm", c.lineno)
